@@ -189,6 +189,9 @@ pub struct PeerPlan {
     pub ack_codes: Vec<u8>,
     /// answer QoS2 publishes from the endpoint with PUBREC, then PUBCOMP after PUBREL
     pub pubcomp_any_order: bool,
+    /// v5: PUBREC carries the reason code of `ack_codes` too (>= 0x80: the peer refuses the publish); a
+    /// PUBREL that arrives for a refused publish is answered with PUBCOMP 0x92 (identifier not found)
+    pub refuse_pubrec: bool,
     /// use the long form for v5 acks
     pub long_acks: bool,
     /// server roles: do not send CONNECT first (the script starts with some other packet)
